@@ -1755,6 +1755,10 @@ struct IndepCase {
     t: F,
     /// raw tuples as handed to the container: encodings (lat, lon) for fwd, radians (lon, lat) for inv
     pts: Vec<P4>,
+    /// true: the operator is instantiated as "dm inv" / "dms inv" and applied in the opposite
+    /// direction (the effective conversion is still the one `fwd` names)
+    #[serde(default)]
+    spelled_inv: bool,
 }
 
 fn check_indep(c: &IndepCase, rec: &mut Rec) -> CaseResult {
@@ -1773,8 +1777,14 @@ fn check_indep(c: &IndepCase, rec: &mut Rec) -> CaseResult {
     }
     let n = vals.len();
     let f32k = matches!(kind, 3 | 7 | 11);
-    let o = op_ctx()?;
-    let h = if c.dms { o.dms } else { o.dm };
+    // the operator as spelled: "dm" / "dms", or "dm inv" / "dms inv" applied in the opposite direction
+    let text = format!("{name}{}", if c.spelled_inv { " inv" } else { "" });
+    let apply_fwd = c.fwd != c.spelled_inv;
+    let mut ctx = Minimal::default();
+    let handle = match try_op(&mut ctx, &text) {
+        Ok(Ok(h)) => h,
+        other => return fail(format!("{name}-operator-unavailable"), format!("ctx.op({text:?}) failed: {other:?}")),
+    };
     let (hh, tt) = (c.h.0, c.t.0);
     let run_on = |v: &[[f64; 4]]| -> Result<(Vec<[f64; 4]>, Vec<[f64; 4]>, usize), Failure> {
         let mut input = vec![];
@@ -1782,7 +1792,8 @@ fn check_indep(c: &IndepCase, rec: &mut Rec) -> CaseResult {
         let mut count = 0usize;
         with_container(kind, v, hh, tt, &mut |s: &mut dyn CoordinateSet| {
             input = (0..s.len()).map(|i| s.get_coord(i).0).collect();
-            match try_apply(&o.ctx, h, dir_of(c.fwd), s) {
+            let applied = try_apply(&ctx, handle, dir_of(apply_fwd), s);
+            match applied {
                 Err(p) => vfail!(format!("panic-apply@{}", p.sig()), "applying '{name}' ({dname}) to {kname} {} panics: {} at {}:{}", show_set(v), p.msg, p.file, p.line),
                 Ok(Err(e)) => vfail!(format!("{name}-operator-error"), "apply of '{name}' ({dname}) to {kname} {} returned {e:?}", show_set(v)),
                 Ok(Ok(k)) => count = k,
@@ -1847,13 +1858,50 @@ fn check_indep(c: &IndepCase, rec: &mut Rec) -> CaseResult {
         vensure!(count == n, format!("{name}-operator-count"), "'{name}' ({dname}) on {n} tuples with finite angles reports {count} successes");
     }
     rec.class(kname);
+    // runs of repeated positions / repeated height-time (raw tuples, before the container drops dimensions)
+    let same_ang = |a: &[f64; 4], b: &[f64; 4]| a[0] == b[0] && a[1] == b[1];
+    let same_ht = |a: &[f64; 4], b: &[f64; 4]| bits_eq(a[2], b[2]) && bits_eq(a[3], b[3]);
+    let mut adjacent_dup = false;
+    let mut longest_run = 1usize;
+    let mut run_len = 1usize;
+    let mut gap_dup = false;
+    let mut mirror = false;
+    for i in 1..n {
+        if same_ang(&vals[i], &vals[i - 1]) && !same_ht(&vals[i], &vals[i - 1]) {
+            adjacent_dup = true;
+            run_len += 1;
+            longest_run = longest_run.max(run_len);
+        } else {
+            run_len = 1;
+        }
+        if !same_ang(&vals[i], &vals[i - 1]) && same_ht(&vals[i], &vals[i - 1]) {
+            mirror = true;
+        }
+        if i >= 2 && same_ang(&vals[i], &vals[i - 2]) && !same_ang(&vals[i], &vals[i - 1]) && !same_ht(&vals[i], &vals[i - 2]) {
+            gap_dup = true;
+        }
+    }
+    let eff = if c.fwd { "decode" } else { "encode" };
+    if adjacent_dup {
+        rec.class(&format!("dup:adjacent-equal-angles-different-h/t:{kname}:{eff}"));
+        rec.class(&format!("dup:longest-run-{}", longest_run.min(4)));
+    }
+    if gap_dup {
+        rec.class(&format!("dup:equal-angles-after-a-gap:{eff}"));
+    }
+    if mirror {
+        rec.class(&format!("dup:adjacent-equal-h/t-different-angles:{eff}"));
+    }
+    if c.spelled_inv {
+        rec.class(&format!("spelled '{name} inv' applied {}", if c.fwd { "Inv" } else { "Fwd" }));
+    }
     rec.class(match (first_nan, nan_before_valid) {
         (None, _) => "order:no-NaN-angle",
         (Some(_), true) => "order:NaN-angle-precedes-valid-tuple",
         (Some(_), false) => "order:NaN-angle-last-or-alone",
     });
-    if nan_before_valid {
-        rec.nontrivial(&(c.dms, c.fwd, kind, format!("{:?}", c.pts)));
+    if nan_before_valid || adjacent_dup {
+        rec.nontrivial(&(c.dms, c.fwd, c.spelled_inv, kind, format!("{:?}", c.pts)));
     }
     Ok(())
 }
@@ -1864,12 +1912,16 @@ fn show_set(v: &[[f64; 4]]) -> String {
 }
 
 fn indep_strategy() -> impl Strategy<Value = IndepCase> {
-    let tuple = (sexa_strategy(), sexa_strategy(), 0u8..20, any_f64_class(), any_f64_class());
-    (any::<bool>(), any::<bool>(), 0u8..OP_KINDS.len() as u8, any_f64_class(), any_f64_class(), prop::collection::vec(tuple, 2..10)).prop_map(
-        |(dms, fwd, kind, h, t, raw)| {
-            let pts = raw
+    // dup: 0..35 repeat the angles of the predecessor (fresh h/t), 35..45 repeat its h/t (fresh angles),
+    // 45..55 repeat the angles of the tuple two back, 55..59 repeat the predecessor entirely,
+    // 59..63 repeat the predecessor's angles with the sign of zeros flipped; else nothing
+    let tuple = (sexa_strategy(), sexa_strategy(), 0u8..22, any_f64_class(), any_f64_class(), 0u8..100);
+    (any::<bool>(), any::<bool>(), prop::bool::weighted(0.2), 0u8..OP_KINDS.len() as u8, any_f64_class(), any_f64_class(), prop::collection::vec(tuple, 2..10)).prop_map(
+        |(dms, fwd, spelled_inv, kind, h, t, raw)| {
+            let dups: Vec<u8> = raw.iter().map(|r| r.5).collect();
+            let mut pts: Vec<P4> = raw
                 .into_iter()
-                .map(|(a, b, class, hh, tt)| {
+                .map(|(a, b, class, hh, tt, _)| {
                     // a = latitude, b = longitude
                     let (mut x, mut y) = if fwd {
                         if dms { (a.enc_dms(), b.enc_dms()) } else { (a.enc_dm(), b.enc_dm()) }
@@ -1887,12 +1939,37 @@ fn indep_strategy() -> impl Strategy<Value = IndepCase> {
                         7 => y = f64::NEG_INFINITY,
                         8 => x = 1.0e300,
                         9 => y = -0.0,
+                        10 => x = 0.0,
                         _ => {}
                     }
                     [F(x), F(y), hh, tt]
                 })
                 .collect();
-            IndepCase { dms, fwd, kind, h, t, pts }
+            for i in 1..pts.len() {
+                let prev = pts[i - 1];
+                match dups[i] {
+                    0..=34 => {
+                        pts[i][0] = prev[0];
+                        pts[i][1] = prev[1];
+                    }
+                    35..=44 => {
+                        pts[i][2] = prev[2];
+                        pts[i][3] = prev[3];
+                    }
+                    45..=54 if i >= 2 => {
+                        pts[i][0] = pts[i - 2][0];
+                        pts[i][1] = pts[i - 2][1];
+                    }
+                    55..=58 => pts[i] = prev,
+                    59..=62 => {
+                        let flip = |v: f64| if v == 0.0 { -v } else { v };
+                        pts[i][0] = F(flip(prev[0].0));
+                        pts[i][1] = F(flip(prev[1].0));
+                    }
+                    _ => {}
+                }
+            }
+            IndepCase { dms, fwd, kind, h, t, pts, spelled_inv }
         },
     )
 }
@@ -2018,7 +2095,7 @@ fn main() {
     let n = run.scale(20_000, 1_200_000);
     run.section(
         "operator-tuple-independence",
-        "dm and dms, fwd and inv, on sets of 2..9 tuples in 15 container kinds (Vec/slice/array of Coor4D/3D/2D/32, (Vec<Coor2D>,h,t), (Vec<Coor3D>,t), user Soa3); tuples in random order mix ordinary angles, zero-degree negatives, carries, NaN (30 %), +-inf, 1e300 and -0 angles and all f64 classes in h/t; every tuple without a NaN angle must come out bit for bit as when converted alone in a one-tuple container of the same kind, and (f64 containers, angles in the domain) agree with the angular:: scalar functions element-wise; count asserted only for sets with finite angles; non-trivial = a NaN-angle tuple precedes a valid tuple",
+        "dm and dms, fwd and inv, on sets of 2..9 tuples in 15 container kinds (Vec/slice/array of Coor4D/3D/2D/32, (Vec<Coor2D>,h,t), (Vec<Coor3D>,t), user Soa3); tuples in random order mix ordinary angles, zero-degree negatives, carries, NaN (30 %), +-inf, 1e300 and +-0 angles and all f64 classes in h/t; a duplication mutator makes 35 % of the tuples repeat the angles of their predecessor with fresh h/t (runs of 2-4), 10 % repeat its h/t with fresh angles, 10 % repeat the angles of the tuple two back, some repeat it entirely or with the sign of zeros flipped; 20 % of the cases spell the operator 'dm inv'/'dms inv' and apply it in the opposite direction; every tuple without a NaN angle must come out bit for bit as when converted alone in a one-tuple container of the same kind, and (f64 containers, angles in the domain) agree with the angular:: scalar functions element-wise; count asserted only for sets with finite angles; non-trivial = a NaN-angle tuple precedes a valid tuple, or adjacent tuples share their angles but not h/t",
         n,
         indep_strategy,
         check_indep,
